@@ -68,6 +68,10 @@ type dispatchSite struct {
 	ctx    ssa.Value
 	dirty  []*types.Var
 	inMapRange bool
+	// kind: "dispatch" (a child node is entered) or an own-use of the context:
+	// "addissue", "callback" (a dynamic call receiving the context), "exit-test"
+	kind string
+	at   ssa.Instruction
 }
 
 func (P *Prog) newCatchAnalysis() *catchAnalysis {
@@ -267,6 +271,7 @@ func (ca *catchAnalysis) run(fn *ssa.Function, init flagState) ([]dispatchSite, 
 		return st[v]
 	}
 	sitesAt := map[ssa.Instruction]*dispatchSite{}
+	usesAt := map[ssa.Instruction]*dispatchSite{}
 	exit := flagState{}
 	mapRangeBlocks := mapRangeBodies(fn)
 	changed := true
@@ -298,6 +303,31 @@ func (ca *catchAnalysis) run(fn *ssa.Function, init flagState) ([]dispatchSite, 
 							}
 						}
 					}
+				case *ssa.If:
+					if base, f := loadOfField(cv(x.Cond)); f != nil && sameField(f, R.FExit) {
+						bv := cv(base)
+						if ca.isCtxVal(bv) {
+							cur := get(st, bv)
+							us := usesAt[ins]
+							if us == nil {
+								us = &dispatchSite{fn: fn, callee: "exit-test", ctx: bv, kind: "exit-test", at: ins}
+								usesAt[ins] = us
+							}
+							// the test is meaningful only after a test ran; what must hold is that Exit was
+							// clean when the node started using its context: recorded as dirty-before-own-use
+							if cur[R.FCanCatch] {
+								has := false
+								for _, e := range us.dirty {
+									if e == R.FCanCatch {
+										has = true
+									}
+								}
+								if !has {
+									us.dirty = append(us.dirty, R.FCanCatch)
+								}
+							}
+						}
+					}
 				case *ssa.Return:
 					// deferred closures run now, with the state reached here
 					fin := st
@@ -307,8 +337,30 @@ func (ca *catchAnalysis) run(fn *ssa.Function, init flagState) ([]dispatchSite, 
 								if mc, ok := df.Call.Value.(*ssa.MakeClosure); ok {
 									if cl, ok := mc.Fn.(*ssa.Function); ok && cl.Blocks != nil && !ca.busy[cl] {
 										ca.busy[cl] = true
-										_, cexit := ca.run(cl, fin)
+										csites, cexit := ca.run(cl, fin)
 										delete(ca.busy, cl)
+										for _, cs := range csites {
+											if cs.kind == "dispatch" || cs.at == nil {
+												continue
+											}
+											us := usesAt[cs.at]
+											if us == nil {
+												c2 := cs
+												usesAt[cs.at] = &c2
+												continue
+											}
+											for _, d := range cs.dirty {
+												has := false
+												for _, e := range us.dirty {
+													if e == d {
+														has = true
+													}
+												}
+												if !has {
+													us.dirty = append(us.dirty, d)
+												}
+											}
+										}
 										fin = fin.clone()
 										fin.joinFrom(cexit)
 									}
@@ -344,6 +396,36 @@ func (ca *catchAnalysis) run(fn *ssa.Function, init flagState) ([]dispatchSite, 
 							continue
 						}
 						cur := get(st, av)
+						useKind := ""
+						switch {
+						case isDisp:
+						case ci.invoke != nil && ci.invoke.Name() == "AddIssue", ci.static != nil && ci.static == ca.addIssue:
+							if ai == 0 {
+								useKind = "addissue"
+							}
+						case ci.dynamic:
+							useKind = "callback"
+						}
+						if useKind != "" {
+							us := usesAt[ins]
+							if us == nil {
+								us = &dispatchSite{fn: fn, in: ci.instr, callee: useKind, ctx: av, kind: useKind, at: ins}
+								usesAt[ins] = us
+							}
+							for _, fl := range ca.flags {
+								if cur[fl] {
+									has := false
+									for _, e := range us.dirty {
+										if e == fl {
+											has = true
+										}
+									}
+									if !has {
+										us.dirty = append(us.dirty, fl)
+									}
+								}
+							}
+						}
 						if isDisp {
 							var dirty []*types.Var
 							for _, fl := range ca.flags {
@@ -353,7 +435,7 @@ func (ca *catchAnalysis) run(fn *ssa.Function, init flagState) ([]dispatchSite, 
 							}
 							ds := sitesAt[ins]
 							if ds == nil {
-								ds = &dispatchSite{fn: fn, in: ci.instr, callee: name, ctx: av, inMapRange: mapRangeBlocks[b]}
+								ds = &dispatchSite{fn: fn, in: ci.instr, callee: name, ctx: av, inMapRange: mapRangeBlocks[b], kind: "dispatch", at: ins}
 								sitesAt[ins] = ds
 							}
 							// accumulate (monotone)
@@ -408,8 +490,14 @@ func (ca *catchAnalysis) run(fn *ssa.Function, init flagState) ([]dispatchSite, 
 	for _, ds := range sitesAt {
 		sites = append(sites, *ds)
 	}
+	for _, us := range usesAt {
+		sites = append(sites, *us)
+	}
 	sort.Slice(sites, func(i, j int) bool {
-		a, b := sites[i].in.(ssa.Instruction), sites[j].in.(ssa.Instruction)
+		a, b := sites[i].at, sites[j].at
+		if a.Parent() != b.Parent() {
+			return fname(a.Parent()) < fname(b.Parent())
+		}
 		if a.Block().Index != b.Block().Index {
 			return a.Block().Index < b.Block().Index
 		}
@@ -557,7 +645,11 @@ func (P *Prog) allDispatchSites(ca *catchAnalysis) []dispatchSite {
 			continue
 		}
 		sites, _ := ca.run(fn, nil)
-		out = append(out, sites...)
+		for _, s := range sites {
+			if s.kind == "dispatch" {
+				out = append(out, s)
+			}
+		}
 	}
 	return out
 }
@@ -572,4 +664,27 @@ func siteNames(sites []dispatchSite) []string {
 		names[i] = fmt.Sprintf("%s@%d", k, cnt[k])
 	}
 	return names
+}
+
+// ownUseSites: for every non-pipeline node function, the places where the node
+// uses its own context to report (AddIssue), to call user code, or to test
+// Exit — with the flags that may be dirty there.
+func (P *Prog) ownUseSites(ca *catchAnalysis) []dispatchSite {
+	var out []dispatchSite
+	isPipeline := map[*ssa.Function]bool{}
+	for _, pl := range P.roles.Pipelines {
+		isPipeline[pl] = true
+	}
+	for _, fn := range P.nodeFuncs() {
+		if isPipeline[fn] {
+			continue
+		}
+		sites, _ := ca.run(fn, nil)
+		for _, s := range sites {
+			if s.kind != "dispatch" {
+				out = append(out, s)
+			}
+		}
+	}
+	return out
 }
